@@ -4,6 +4,21 @@
 //	cfg <ackTimeoutNs> <maxRetransmit> <nstart> [<level>] | send <id> <deadlineNs|-> [<kind>] | sleep <ns> | tick <aheadNs>
 //	  | ack <id> | rst <id> | pig <id> <tag> | resp <id> <con|non> <tag> | cancel <id> | mut <id>
 //	  | hsend <id> <deadlineNs|-> [<kind>] | burst <k>
+//	  | ping <id> <deadlineNs|-> | wcon <id> <deadlineNs|-> [<wkind>]
+//
+// ping: Conn.Ping(ctx) - a confirmable Empty message with its own pending entry, no NSTART slot; `ack` / `rst` with its id are
+// the pong. wcon: Conn.WriteMessage of a confirmable message that is NOT a request (wkind c<n> = 2.05 Content with an n-byte
+// payload and the token of <id>, n<n> = the same as a notification with an Observe option, e = 4.04 without payload): clone,
+// pending entry with the deadline of the context, no NSTART slot, returns when any message with its ID comes back. Both
+// return `acked` on completion.
+//
+//	  | wreq <id> <deadlineNs|-> [<kind>] | obs <id> <deadlineNs|->
+//
+// The two other entrances of a confirmable REQUEST: wreq = Conn.WriteMessage of a confirmable request (one way: returns
+// `acked` when a message with its ID comes back); obs = Conn.DoObserve (what Client.Observe calls): the registration GET goes
+// out through Conn.WriteMessage, then the call waits for the first notification (`ok:<body>`). Level `bw`: like `hand` with
+// the block-wise layer ON (the default of every constructor) - Conn.WriteMessage then goes through BlockWise.WriteMessage,
+// which transmits a copy of its own.
 //
 // hsend: like send, but the request is issued from inside a handler of the connection (a request of the peer arrives, its
 // handler calls Conn.Do and waits); burst: k unrelated messages from the peer. All datagrams from the peer reach the
@@ -77,6 +92,7 @@ type call struct {
 	first  []byte
 	mid    int32
 	sent   bool
+	kind   string // "" = request of Conn.Do, "ping", "wcon"
 }
 
 type retEntry struct {
@@ -148,6 +164,17 @@ func (sc *scenario) runCall(c *call) {
 		body, _ := io.ReadAll(resp.Body())
 		res = "ok:" + string(body)
 		sc.cc.ReleaseMessage(resp)
+	}
+	sc.mu.Lock()
+	sc.rets = append(sc.rets, retEntry{c.id, res, time.Since(sc.base).Nanoseconds()})
+	sc.mu.Unlock()
+}
+
+// runWrite runs a call that completes without a response (Conn.Ping, Conn.WriteMessage) and records how it ended.
+func (sc *scenario) runWrite(c *call, f func() error) {
+	res := "acked"
+	if err := f(); err != nil {
+		res = classify(err)
 	}
 	sc.mu.Lock()
 	sc.rets = append(sc.rets, retEntry{c.id, res, time.Since(sc.base).Nanoseconds()})
@@ -250,8 +277,35 @@ func (sc *scenario) observe(stamp int64, isTick bool) string {
 		id, ok := idOfToken(m.Token())
 		sc.mu.Lock()
 		c := sc.calls[id]
+		isReq := m.Code() >= codes.GET && m.Code() <= codes.DELETE
+		if ok && c != nil && (c.kind == "ping" || (c.kind == "wcon") == isReq) { // requests: "", wreq, obs
+			c = nil
+		}
+		if m.Type() == message.Confirmable && m.Code() == codes.Empty && len(m.Token()) == 0 {
+			// a ping of the connection under test: a retransmission carries the message ID of its first transmission,
+			// a first transmission belongs to the ping issued last
+			c, ok = nil, false
+			var fresh *call
+			for _, x := range sc.calls {
+				if x.kind != "ping" {
+					continue
+				}
+				if x.sent && x.mid == m.MessageID() {
+					c, ok = x, true
+				}
+				if !x.sent && (fresh == nil || x.id > fresh.id) {
+					fresh = x
+				}
+			}
+			if c == nil && fresh != nil {
+				c, ok = fresh, true
+			}
+			if c != nil {
+				id = c.id
+			}
+		}
 		sc.mu.Unlock()
-		if ok && c != nil && m.Type() == message.Confirmable && m.Code() >= codes.GET && m.Code() <= codes.DELETE {
+		if ok && c != nil && m.Type() == message.Confirmable {
 			same := "="
 			if !c.sent {
 				c.sent = true
@@ -450,9 +504,9 @@ func runScenario(t *testing.T, line string) string {
 		}
 		sc := &scenario{calls: map[int]*call{}, peerMID: 10000, base: time.Now()}
 		switch level {
-		case "hand", "opt":
+		case "hand", "opt", "bw":
 			var s *mem.UDPSession
-			sc.cc, s = mem.NewUDPConn(mem.UDPOpts{Mutate: func(cfg *udpclient.Config) {
+			sc.cc, s = mem.NewUDPConn(mem.UDPOpts{Blockwise: level == "bw", Mutate: func(cfg *udpclient.Config) {
 				if level == "opt" {
 					options.WithTransmission(uint32(nstart), time.Duration(ackTimeout), uint32(maxRetransmit)).UDPClientApply(cfg)
 				} else {
@@ -536,6 +590,116 @@ func runScenario(t *testing.T, line string) string {
 				} else {
 					go sc.runCall(c)
 				}
+			case "ping":
+				_, id := idArg()
+				ctx, cancel := context.WithCancel(context.Background())
+				if f[2] != "-" {
+					d, _ := strconv.ParseInt(f[2], 10, 64)
+					var c2 context.CancelFunc
+					ctx, c2 = context.WithDeadline(ctx, time.Now().Add(time.Duration(d)))
+					_ = c2
+				}
+				c := &call{id: id, cancel: cancel, kind: "ping"}
+				sc.mu.Lock()
+				sc.calls[id] = c
+				sc.mu.Unlock()
+				go sc.runWrite(c, func() error { return sc.cc.Ping(ctx) })
+			case "wcon":
+				_, id := idArg()
+				ctx, cancel := context.WithCancel(context.Background())
+				if f[2] != "-" {
+					d, _ := strconv.ParseInt(f[2], 10, 64)
+					var c2 context.CancelFunc
+					ctx, c2 = context.WithDeadline(ctx, time.Now().Add(time.Duration(d)))
+					_ = c2
+				}
+				kind := "c3"
+				if len(f) > 3 {
+					kind = f[3]
+				}
+				n := 0
+				if len(kind) > 1 {
+					n, _ = strconv.Atoi(kind[1:])
+				}
+				body := make([]byte, n)
+				for i := range body {
+					body[i] = byte('A' + (id+i)%26)
+				}
+				msg := sc.cc.AcquireMessage(ctx)
+				msg.SetType(message.Confirmable)
+				msg.SetToken(tokenOf(id))
+				switch kind[0] {
+				case 'e':
+					msg.SetCode(codes.NotFound)
+				case 'n':
+					msg.SetCode(codes.Content)
+					msg.SetObserve(uint32(7 + id))
+				default:
+					msg.SetCode(codes.Content)
+				}
+				if n > 0 {
+					msg.SetContentFormat(message.TextPlain)
+					msg.SetBody(bytes.NewReader(body))
+				}
+				c := &call{id: id, req: msg, cancel: cancel, kind: "wcon"}
+				sc.mu.Lock()
+				sc.calls[id] = c
+				sc.mu.Unlock()
+				go sc.runWrite(c, func() error { return sc.cc.WriteMessage(msg) })
+			case "wreq", "obs":
+				_, id := idArg()
+				ctx, cancel := context.WithCancel(context.Background())
+				if f[2] != "-" {
+					d, _ := strconv.ParseInt(f[2], 10, 64)
+					var c2 context.CancelFunc
+					ctx, c2 = context.WithDeadline(ctx, time.Now().Add(time.Duration(d)))
+					_ = c2
+				}
+				req := sc.cc.AcquireMessage(ctx)
+				kind := "g"
+				if len(f) > 3 {
+					kind = f[3]
+				}
+				if f[0] == "obs" {
+					kind = "g"
+				}
+				if err := setupRequest(req, id, kind); err != nil {
+					panic(err)
+				}
+				req.SetType(message.Confirmable)
+				c := &call{id: id, req: req, cancel: cancel, kind: f[0]}
+				sc.mu.Lock()
+				sc.calls[id] = c
+				sc.mu.Unlock()
+				if f[0] == "wreq" {
+					go sc.runWrite(c, func() error { return sc.cc.WriteMessage(req) })
+				} else {
+					req.SetObserve(0)
+					go func() {
+						var mu sync.Mutex
+						first := ""
+						got := false
+						_, err := sc.cc.DoObserve(req, func(n *pool.Message) {
+							body, _ := io.ReadAll(n.Body())
+							mu.Lock()
+							if !got {
+								got, first = true, string(body)
+							}
+							mu.Unlock()
+						})
+						res := ""
+						if err != nil {
+							res = classify(err)
+						} else {
+							mu.Lock()
+							res = "ok:" + first
+							mu.Unlock()
+						}
+						sc.mu.Lock()
+						sc.rets = append(sc.rets, retEntry{c.id, res, time.Since(sc.base).Nanoseconds()})
+						sc.mu.Unlock()
+					}()
+				}
 			case "burst":
 				// unrelated messages from the peer (responses nobody waits for): they only have to get through the queue
 				k, _ := strconv.Atoi(f[1])
@@ -603,6 +767,9 @@ func runScenario(t *testing.T, line string) string {
 				// is not safe for concurrent use). It is done here nevertheless, also while the request still waits for its
 				// NSTART slot (Do's goroutine is blocked in the semaphore then), to compare with the model's two sources:
 				// first datagram from the caller's message, retransmissions from the clone taken when the call was made.
+				if c.req == nil {
+					break // a ping has no message of the caller
+				}
 				c.req.SetCode(codes.POST)
 				c.req.AddQuery("mutated=1")
 				c.req.SetBody(bytes.NewReader([]byte("changed")))
